@@ -113,6 +113,8 @@ def gen_params(name: str, rng, vertical: bool = False) -> dict:
             d = c  # vertical right edge
         elif vertical and k < 0.4:
             b = a  # vertical left edge
+        elif vertical and k < 0.5:
+            b, c = c, b  # crossed edges (top_left > top_right): still the documented product of the two shapes
         return {"bottom_left": a, "top_left": b, "top_right": c, "bottom_right": d, "height": h}
     raise KeyError(name)
 
